@@ -14,6 +14,7 @@ NOTE = ("Trusted: go/packages+go/ssa (x/tools v0.50.0), the symx interpreter/int
 
 claimed = {
  "C12": ("All six arithmetic relations of the statement are SMT-decided over the whole range n,w,p in [0,2^62] on the real GetRequiredWaitSlaveCount/GetFailoverQuorum/CheckFailoverQuorum (loop-free; the only bound is the word size).", "§7 C12"),
+ "C01": ("The whole real performSwitchover from arbitrary GTID patterns (executed and retrieved sets of every node arbitrary bit-vectors), arbitrary published list, alive/dead/already-frozen nodes, four request kinds, three replication modes, with the environment moving between calls; the oracle is evaluated on the ground truth of the fake servers at the moment `SET GLOBAL read_only = 0` arrives: at least the failover quorum of the published members are read-only and hold nothing the promoted node lacks; split brain (no maximum) => nothing promoted + emerge file; success => recorded master = promoted, writable, old master clean or marked; lock re-confirmed after freeze and after catch-up; plus every pattern of lock answers and one failing/lost-reply call.", "§7 C01"),
  "C03": ("Lock layer: the real AcquireLock/ReleaseLock/handleSessionEvent of two zkDCS instances over one fake ZooKeeper, one process's operations interleaved at every ZooKeeper request with session expiry, new sessions, delivery of session events, whole operations of the other process and TTL expiry (3/4 environment actions, 2/3 operations): never true after a delivered session loss unless the znode is owned, release never removes a foreign lock (checked when the delete is applied). Daemon layer: no remote-mutating statement or protected coordination write without a lock confirmation in the same iteration, for every state handler and every pattern of lock answers. Lease-window, version-0 release race and post-refusal FailSwitchover are known findings.", "§7 C03"),
  "C04": ("One call of the real updateActiveNodes (with calcActiveNodes, calcActiveNodesChanges, semi-sync adjustments, eviction guard, SetActiveNodes) from an arbitrary membership/health situation of a master + 2 replicas (10 replica classes x semi-sync flag x old-list membership x master semi-sync state x both adjust orders), with (a)/(b) asserted as checkpoint invariants after every mutating statement or coordination write (crash at any point) and with one failing/lost-reply call; list content rules on every published value; SetRecovery delists before it marks. Known findings listed in KNOWN_FINDINGS.json are reported as such.", "§7 C04"),
  "C15": ("One operation of the real zkDCS data plane (create/set/get/delete/children incl. makePath, retry and path normalisation) from an arbitrary tree over 4 keys x 4 node kinds x 6 slash spellings against a fake ZooKeeper as reference tree, znode versions symbolic (solver-decided), plus buildFullPath over all byte strings up to length 7/10, retry-only-while-connected with 1/2 lost requests, and ephemeral lifetime across sessions. Mostly structural decisions (exhaustive re-execution), the solver decides the version arithmetic.", "§7 C15"),
